@@ -1,5 +1,5 @@
 SPECIFICATION Spec
 CONSTANTS N = 3
  L = 2
-INVARIANTS MemoSound Symmetric Predicted Emit
+INVARIANTS MemoSound Symmetric Predicted Emit EmitEdits
 CHECK_DEADLOCK FALSE
